@@ -822,6 +822,9 @@ enum Shape {
     /// scans next to splits: one writer appends 100–160 rows (multi-row inserts) to a table preloaded to several pages, so
     /// that its right-most leaves split and are redistributed, while 3 readers keep scanning that table
     ScanVsSplit,
+    /// statement level: 3–6 threads, each issuing autocommit SELECT / INSERT / DELETE statements on a table of its own, with
+    /// delays at every yield point; judged additionally against each thread's statements run ALONE (non-interference)
+    DisjointAuto,
     /// first split: a table that fills most of ONE page is scanned by 3 readers while a writer appends rows until the root
     /// splits; delays between page fetch and latch widen the gap between a scan's descent and the start of its iteration
     FirstSplit,
@@ -929,6 +932,43 @@ fn with_yields(mut c: Case, yields: &[(&str, u64, u64)], shape: &str) -> Case {
     c
 }
 
+fn gen_disjoint_auto(rng: &mut Rng) -> Case {
+    let n = rng.range(3, 6) as usize;
+    let mut g = Gen { rng };
+    let mut setup: Vec<String> = Vec::new();
+    let mut per_thread: Vec<Vec<String>> = Vec::new();
+    for i in 1..=n {
+        let name = format!("w{}", i);
+        setup.push(format!("tab={}{}", name, TAB3));
+        if i <= 2 && g.rng.chance(1, 2) {
+            setup.push(format!("fill={}:{}:{}", name, g.rng.range(40, 120), g.rng.range(40, 100)));
+        } else {
+            for k in 1..=g.rng.range(0, 3) {
+                setup.push(format!("row={}:{},{},'i'", name, k, 10 * k));
+            }
+        }
+        let mut ops = Vec::new();
+        let cnt = g.rng.range(5, 10) as usize;
+        g.writer_auto(i, &name, cnt, &mut ops);
+        per_thread.push(ops);
+    }
+    let ops = merge(g.rng, per_thread);
+    let line = format!(
+        "threads {} cache=10000 pool={} pace={} | {}",
+        setup.join(" "),
+        g.rng.range(2, 8),
+        g.rng.below(1_000_000_000),
+        ops.join(" ; ")
+    );
+    let mut c = Case::new(line, &["nt", "shape:DisjointAuto", "auto_ins", "auto_del", "auto_sel", "statement_level", "clean"]);
+    c.tags.push(format!("threads{}", n));
+    with_yields(
+        c,
+        &[("snapshot_taken", 200, 400), ("commit_logged", 200, 400), ("committed", 200, 400), ("page_fetched", 50, 200), ("tree_write", 200, 400)],
+        "DisjointAuto",
+    )
+}
+
 fn gen_first_split(rng: &mut Rng) -> Case {
     let mut per_thread: Vec<Vec<String>> = Vec::new();
     let pad = "y".repeat(40);
@@ -1027,6 +1067,7 @@ fn gen_case(rng: &mut Rng, shape: Shape, small_cache: bool) -> Case {
         }
         Shape::YieldIndex => return gen_yield_index(rng),
         Shape::FirstSplit => return gen_first_split(rng),
+        Shape::DisjointAuto => return gen_disjoint_auto(rng),
         _ => {}
     }
     if shape == Shape::SnapshotRace {
@@ -1043,7 +1084,7 @@ fn gen_case(rng: &mut Rng, shape: Shape, small_cache: bool) -> Case {
         Shape::Deep => (g.rng.range(2, 3) as usize, g.rng.range(1, 2) as usize),
         Shape::SameTableReaders => (g.rng.range(1, 3) as usize, g.rng.range(1, 3) as usize),
         Shape::SameTableWriters => (g.rng.range(2, 4) as usize, g.rng.range(0, 1) as usize),
-        Shape::SnapshotRace | Shape::ScanVsSplit | Shape::YieldSnapshot | Shape::YieldTree | Shape::YieldIndex | Shape::FirstSplit => unreachable!(),
+        Shape::SnapshotRace | Shape::ScanVsSplit | Shape::YieldSnapshot | Shape::YieldTree | Shape::YieldIndex | Shape::FirstSplit | Shape::DisjointAuto => unreachable!(),
         Shape::SmallCache => (g.rng.range(2, 3) as usize, g.rng.range(1, 2) as usize),
         Shape::FlushConcurrent | Shape::SubQ => (g.rng.range(2, 3) as usize, 1usize),
     };
@@ -1196,6 +1237,7 @@ impl Engine for ThreadsEngine {
             Shape::YieldTree,
             Shape::YieldIndex,
             Shape::FirstSplit,
+            Shape::DisjointAuto,
         ];
         // cases of the two known-finding regions are spread among the clean ones (a hang costs its supervisor slot 10 s)
         let regions = [Shape::FlushConcurrent, Shape::SubQ];
